@@ -285,6 +285,17 @@ func (c *genCtx) gen(depth int, nn, incap bool) *Expr {
 			}
 			return e
 		}
+		if len(c.g.Prods) < c.o.MaxProds+2 && c.draw(0, 9, "emptyprod") == 0 {
+			// a production that may match nothing, captured where it does: the field then holds an empty node, not nil
+			a, b := c.leaf(), c.leaf()
+			np := &Prod{Expr: Group("?", Cap(a)), PosStyle: 3}
+			if rapid.Bool().Draw(c.t, "emptyprodstar") {
+				np.Expr = Seq(Group("?", Cap(a)), Group("*", Cap(b)))
+			}
+			c.g.Prods = append(c.g.Prods, np)
+			c.nullP = append(c.nullP, true)
+			return Seq(SubP(len(c.g.Prods)-1), c.otherLiteral(a))
+		}
 		if e := c.subProd(nn, depth); e != nil {
 			return e
 		}
@@ -877,6 +888,8 @@ func GenGrammar(t *rapid.T, o GenOpts) *Grammar {
 	if o.Profiles && rapid.IntRange(0, 3).Draw(t, "profile") == 0 {
 		g.Profile = "scanner"
 		o.NameElided = false
+	} else if o.Profiles && rapid.IntRange(0, 5).Draw(t, "customlexer") == 0 {
+		g.Profile = "custom"
 	}
 	es := g.Prof().ElideSets
 	g.Elide = es[rapid.IntRange(0, len(es)-1).Draw(t, "elideset")]
